@@ -345,6 +345,12 @@ func (sp *Spec) ReadSpecFile(path, defaultPkg string) error {
 		case "smt":
 			sp.RawSMT = append(sp.RawSMT, rc.rest)
 		case "typeinv":
+			body = strings.TrimSpace(rc.rest)
+			if strings.HasPrefix(body, "[") {
+				if k := strings.Index(body, "]"); k > 0 {
+					body = strings.TrimSpace(body[k+1:])
+				}
+			}
 			i := strings.Index(body, ":")
 			if i < 0 {
 				return fmt.Errorf("%s: typeinv needs Type: expr", rc.pos)
